@@ -27,6 +27,8 @@ type modesResult struct {
 	OwnNext     int64  `json:"own_next_execs"`
 	WaitOK      bool   `json:"wait_returned"`
 	Seed        int    `json:"seed"`
+	Restart     bool   `json:"restart"`
+	Failing     bool   `json:"failing_jobs"`
 }
 
 type inflight struct {
@@ -68,7 +70,11 @@ func stopAndWait(s quartz.Scheduler, d time.Duration) bool {
 // barrier test: `jobs` jobs, all due at once, each waits inside Execute until `size` of them are inside
 // (or `hold` has passed)
 func runBarrier(mode string, limit, bound, jobs, size int, hold time.Duration, test string, seed int) modesResult {
-	res := modesResult{Kind: "modes", Mode: mode, Limit: limit, Test: test, Bound: bound, Jobs: jobs, Barrier: size, Seed: seed}
+	return runBarrierR(mode, limit, bound, jobs, size, hold, test, seed, false)
+}
+
+func runBarrierR(mode string, limit, bound, jobs, size int, hold time.Duration, test string, seed int, restart bool) modesResult {
+	res := modesResult{Kind: "modes", Mode: mode, Limit: limit, Test: test, Bound: bound, Jobs: jobs, Barrier: size, Seed: seed, Restart: restart}
 	s, _ := quartz.NewStdScheduler(modeOpts(mode, limit)...)
 	var fl inflight
 	var inside atomic.Int64
@@ -91,9 +97,20 @@ func runBarrier(mode string, limit, bound, jobs, size int, hold time.Duration, t
 			case <-ctx.Done():
 			}
 			return nil
-		}), quartz.NewRunOnceTrigger(time.Millisecond))
+		}), quartz.NewRunOnceTrigger(30*time.Millisecond))
 	}
-	s.Start(context.Background())
+	parent, pcancel := context.WithCancel(context.Background())
+	defer pcancel()
+	if restart {
+		// a stopped and restarted scheduler under a still-live parent context has the same bound
+		s.Start(parent)
+		time.Sleep(2 * time.Millisecond)
+		s.Stop()
+		wctx, wc := context.WithTimeout(context.Background(), 3*time.Second)
+		s.Wait(wctx)
+		wc()
+	}
+	s.Start(parent)
 	deadline := hold + 2*time.Second
 	if test == "barrier_n1" {
 		// everything must have run through: jobs/bound rounds of `hold` each
@@ -117,13 +134,22 @@ func runBarrier(mode string, limit, bound, jobs, size int, hold time.Duration, t
 	return res
 }
 
+var errMixed = fmt.Errorf("mixed workload failure")
+
+func retryDetail(name string, retries bool, f func(ctx context.Context) error) *quartz.JobDetail {
+	if !retries {
+		return detail(name, f)
+	}
+	return quartz.NewJobDetailWithOptions(&funcJob{name, f}, quartz.NewJobKey(name), &quartz.JobDetailOptions{MaxRetries: 2, RetryInterval: time.Millisecond})
+}
+
 func runMixed(mode string, limit, bound, seed int) modesResult {
 	r := &rng{s: uint64(seed)*31 + uint64(limit)*1009 + uint64(len(mode))}
 	jobs := 3*limit + 2
 	if jobs > 40 {
 		jobs = 40
 	}
-	res := modesResult{Kind: "modes", Mode: mode, Limit: limit, Test: "mixed", Bound: bound, Jobs: jobs, Seed: seed}
+	res := modesResult{Kind: "modes", Mode: mode, Limit: limit, Test: "mixed", Bound: bound, Jobs: jobs, Seed: seed, Failing: true}
 	s, _ := quartz.NewStdScheduler(modeOpts(mode, limit)...)
 	var fl inflight
 	var execs atomic.Int64
@@ -131,7 +157,8 @@ func runMixed(mode string, limit, bound, seed int) modesResult {
 		d := time.Duration(r.intn(6)) * time.Millisecond
 		never := i == 0 && mode != "blocking" && mode != "blocking+limit" && limit != 1
 		name := fmt.Sprintf("m%d", i)
-		s.ScheduleJob(detail(name, func(ctx context.Context) error {
+		failing := i%3 == 1 // these fail every time and are retried (MaxRetries 2, 1 ms apart): retries run where the job runs
+		s.ScheduleJob(retryDetail(name, failing, func(ctx context.Context) error {
 			fl.enter()
 			defer fl.exit()
 			execs.Add(1)
@@ -140,6 +167,9 @@ func runMixed(mode string, limit, bound, seed int) modesResult {
 				return nil
 			}
 			time.Sleep(d)
+			if failing {
+				return errMixed
+			}
 			return nil
 		}), quartz.NewSimpleTrigger(time.Duration(2+r.intn(4))*time.Millisecond))
 	}
@@ -211,6 +241,13 @@ func cmdModes() {
 	run(func() modesResult { return runMixed("blocking", 0, 1, seed) })
 	run(func() modesResult { return runMixed("blocking+limit", 3, 1, seed) })
 	run(func() modesResult { return runBarrier("unbounded", 0, 0, 24, 24, 5*time.Second, "barrier_n", seed) })
+	run(func() modesResult { return runBarrier("unbounded", 0, 0, 320, 320, 8*time.Second, "barrier_n", seed) })
+	for _, n := range []int{1, 2, 3} {
+		n := n
+		run(func() modesResult { return runBarrierR("pool", n, n, n+1, n+1, hold, "barrier_n1", seed, true) })
+		run(func() modesResult { return runBarrierR("pool", n, n, n, n, 5*time.Second, "barrier_n", seed, true) })
+	}
+	run(func() modesResult { return runBarrierR("blocking", 0, 1, 2, 2, hold, "barrier_n1", seed, true) })
 	run(func() modesResult { return runMixed("unbounded", 5, 0, seed) })
 	run(func() modesResult { return runIndependent(seed) })
 	wg.Wait()
